@@ -150,6 +150,10 @@ def run_case(item):
     evfile = os.path.join(d, "events.txt")
     logfile = os.path.join(d, "daemon.log")
     env = core.child_env({"VP_EVENT_FILE": evfile, "PYTHONPATH": os.pathsep.join([os.path.join(core.repo_root(), "src"), core.ROOT, os.path.join(core.ROOT, "fixture_dist")])})
+    if (seed // 4) % 2 == 0:
+        # asyncio services park on a private awaitable after a few beats, the others collect
+        # garbage at every beat: a parked service is still kept - and cancelled at the end
+        env["VP_FX_PARK"] = "1"
     env.pop("COBALD_VERIF", None)
     # the runtime log goes to a file or - every third case - to the daemon's standard output
     # (the interpreter's own traceback of an uncaught error goes to standard ERROR: it is kept
@@ -181,6 +185,11 @@ def run_case(item):
             if w[0] == "beat":
                 beats[w[1]] = int(w[2])
         if case["sigint"] and sigint_at is None and svcs and all(beats.get(s, 0) >= 2 for s in svcs):
+            if "VP_FX_PARK" in env:
+                time.sleep(0.25)   # (parked services have been parked for a while, garbage was collected)
+                if proc.poll() is not None:
+                    continue
+                evs = read_events()
             sigint_at = len(evs)
             proc.send_signal(signal.SIGINT)
         if case["sigint"] and sigint_at is None and not svcs and len([w for w in evs if w[0] == "constructed"]) >= len(case["elems"]) and time.time() > deadline - 9.0:
@@ -286,6 +295,8 @@ def run(ctx):
     with ThreadPoolExecutor(max_workers=16) as ex:
         traces = list(ex.map(run_case, items))
     ctx.extra["behaviours_replayed"] = len(traces)
+    if os.environ.get("VP_C13_DUMP"):
+        json.dump(traces, open(os.environ["VP_C13_DUMP"], "w"))
     verdicts, tstates = traceval.validate("DaemonTrace", [{"cfg": t["cfg"], "events": t["events"]} for t in traces], "", timeout=3000)
     ctx.extra["trace_states"] = tstates
     judge(ctx, traces, verdicts)
